@@ -1,3 +1,4 @@
+import QuiverModel.Lemmas.Types.SubTrans
 import QuiverModel.Core.Types.Basic
 import QuiverModel.Core.Types.Inh
 import QuiverModel.Core.Types.Narrow
@@ -246,6 +247,70 @@ def CompatTransStatement : Prop :=
   ∀ (T : Table) (a b c fuel : Nat), Ordered T → Closed T a → Closed T b → Closed T c →
     isCompatible T fuel a b = some true → isCompatible T fuel b c = some true →
     ∃ fuel', isCompatible T fuel' a c = some true
+
+/-- **On first-order types the verdict does not depend on the state of the checker**: whatever
+assumptions (sound ones) and stacks a check starts from, `true` means the stateless syntactic relation
+`Sub` (`Lemmas/Types/Sub.lean`: the arms of the checker without assumption set, stacks and equal-id
+shortcuts), and on a `Sub` pair every check with fuel above the rank sum answers `true`. Partial types
+must not name a field twice (`PartsDistinct`; with a repeated name such a type is not even assignable
+to itself below different enclosing types, because the partial-vs-partial arm looks at the first field
+of a name only). -/
+theorem compat_stateless_fo (T : Table) (hd : PartsDistinct T) (a b : Nat) (ha : FO T a) (hb : FO T b) :
+    (∀ fuel asm st asm', (∀ p ∈ asm, Sub T p.1 p.2) →
+        checkRel T .all fuel asm st a b = some (true, asm') → Sub T a b) ∧
+    (Sub T a b → ∀ fuel asm st, rk T a + rk T b < fuel →
+        ∃ asm', checkRel T .all fuel asm st a b = some (true, asm')) :=
+  ⟨fun fuel asm st asm' hasm h => checkRel_sub hd fuel asm st a b ha hb hasm asm' h,
+   fun hsub fuel asm st hlt => (checkRel_comp T fuel asm st a b ha hb hlt).2 hsub⟩
+
+/-- with fuel above the rank sum `is_compatible` always answers on first-order types -/
+theorem compat_total_fo (T : Table) (a b fuel : Nat) (ha : FO T a) (hb : FO T b)
+    (hlt : rk T a + rk T b < fuel) : ∃ r, isCompatible T fuel a b = some r := by
+  obtain ⟨r, asm', h⟩ := (checkRel_comp T fuel [] {} a b ha hb hlt).1
+  exact ⟨r, by simp [isCompatible, h]⟩
+
+theorem sub_of_compat_fo (T : Table) (hd : PartsDistinct T) (a b fuel : Nat) (ha : FO T a) (hb : FO T b)
+    (h : isCompatible T fuel a b = some true) : Sub T a b := by
+  unfold isCompatible at h
+  cases hc : checkRel T .all fuel [] {} a b with
+  | none => simp [hc] at h
+  | some p =>
+    obtain ⟨r, asm'⟩ := p
+    rw [hc] at h
+    simp only [Option.map_some, Option.some.injEq] at h
+    subst h
+    exact checkRel_sub hd fuel [] {} a b ha hb (fun p hp => by simp at hp) asm' hc
+
+theorem compat_of_sub_fo (T : Table) (a b fuel : Nat) (ha : FO T a) (hb : FO T b)
+    (hlt : rk T a + rk T b < fuel) (h : Sub T a b) : isCompatible T fuel a b = some true := by
+  obtain ⟨asm', h'⟩ := (checkRel_comp T fuel [] {} a b ha hb hlt).2 h
+  simp [isCompatible, h']
+
+/-- **Assignability is transitive** on first-order types (any table whose partial types do not repeat
+a field name; any fuels): from `a ≤ b` and `b ≤ c` every check of `a ≤ c` with fuel above the rank sum
+answers `true`. This is `CompatTransStatement` for the first-order fragment (with an explicit fuel). -/
+theorem compat_trans_fo (T : Table) (hd : PartsDistinct T) (a b c f1 f2 fuel : Nat)
+    (ha : FO T a) (hb : FO T b) (hc : FO T c)
+    (hab : isCompatible T f1 a b = some true) (hbc : isCompatible T f2 b c = some true)
+    (hlt : rk T a + rk T c < fuel) : isCompatible T fuel a c = some true :=
+  compat_of_sub_fo T a c fuel ha hc hlt
+    ((sub_of_compat_fo T hd a b f1 ha hb hab).trans (sub_of_compat_fo T hd b c f2 hb hc hbc))
+
+/-- the statement in the form of `CompatTransStatement` -/
+theorem compat_trans_fo' (T : Table) (hd : PartsDistinct T) (a b c fuel : Nat)
+    (ha : FO T a) (hb : FO T b) (hc : FO T c)
+    (hab : isCompatible T fuel a b = some true) (hbc : isCompatible T fuel b c = some true) :
+    ∃ fuel', isCompatible T fuel' a c = some true :=
+  ⟨_, compat_trans_fo T hd a b c fuel fuel (rk T a + rk T c + 1) ha hb hc hab hbc (by omega)⟩
+
+/-- a verdict about a union is a verdict about each of its variants (first-order) -/
+theorem compat_variant_fo (T : Table) (hd : PartsDistinct T) (s p v f fuel : Nat) (vs : List Nat)
+    (hs : FO T s) (hp : FO T p) (hty : T.types[s]? = some (.union vs)) (hv : v ∈ vs)
+    (h : isCompatible T f s p = some true) (hlt : rk T v + rk T p < fuel) :
+    isCompatible T fuel v p = some true := by
+  obtain ⟨tp, htp, _⟩ := hp.unfold
+  have hsub := (Sub.union_left_iff hty htp).mp (sub_of_compat_fo T hd s p f hs hp h) v hv
+  exact compat_of_sub_fo T v p fuel (hs.union hty v hv) hp hlt hsub
 
 /-- **Intersection never drops a value** (`intersect_types`, first-order operands; any table, any
 fuels): a well-labelled value of both operands is a value of the result, read in the table the
